@@ -353,9 +353,13 @@ Definition c03_step (ds : list (N * sdesc)) (m : mon) (o : op) (i : sobs) : bool
   let selfended := match o with
                    | OData id _ (Some _) => if is_live id then id :: m_dead_w m else m_dead_w m
                    | _ => m_dead_w m end in
+  (* a stream whose transport reported no error (and which nobody cancelled in this step) does not end in this step *)
+  let spurious_end := match o with
+                      | OData id _ None => is_live id && existsb (fun x => match x with ONote NClosed s => s =? id | _ => false end) (o_och i)
+                      | _ => false end in
   match c03_walk selfended (o_och i) (m_sent m ++ offered) with
   | Some rest =>
-      (true, {| m_live := m_live m1; m_ended := m_ended m1; m_shut := m_shut m1; m_entered := m_entered m1;
+      (negb spurious_end, {| m_live := m_live m1; m_ended := m_ended m1; m_shut := m_shut m1; m_entered := m_entered m1;
                 m_sent := rest; m_dead_w := selfended; m_teardown := m_teardown m1; m_outq := m_outq m1 |})
   | None => (false, m1)
   end.
